@@ -9,4 +9,9 @@ import RzmqModel.Props.C17
 #print axioms Rzmq.C17.conn_capped
 #print axioms Rzmq.C17.conn_constant_without_cap
 #print axioms Rzmq.C17.handover_consistent
-#print axioms Rzmq.C17.conn_first_exceeds_cap_counterexample
+#print axioms Rzmq.C17.conn_first_capped
+#print axioms Rzmq.C17.conn_always_capped
+#print axioms Rzmq.C17.event_result_local
+#print axioms Rzmq.C17.inproc_refusal_is_local
+#print axioms Rzmq.C17.other_sockets_events_are_ignored
+#print axioms Rzmq.C17.bus_lag_shuts_down
